@@ -19,7 +19,8 @@ MODULES = ["xrefs", "cell", "containers", "tokenizer", "formula", "model", "docu
 
 
 class LoopSpec:
-    def __init__(self, invariants, decreases=None, modifies=(), hints=(), index=None, havoc=(), kinds=None, steps=()):
+    def __init__(self, invariants, decreases=None, modifies=(), hints=(), index=None, havoc=(), kinds=None, steps=(), pre=()):
+        self.pre = list(pre)  # ghost actions run when the loop is reached (before the entry check)
         self.kinds = dict(kinds or {})
         self.steps = list(steps)  # cut assertions proved (then assumed) at the end of the body, before the invariants
         self.invariants = [invariants] if isinstance(invariants, str) or callable(invariants) else list(invariants)
